@@ -32,6 +32,13 @@ RULE = ('histories of 6..25 operations over 3 identity names: new/touch identity
         'set default identity/key/certificate (also through a non-owner), delete certificate/key/identity (also absent '
         'ones, also via Key.del_cert), get_signer with no/identity/key/cert argument and optional explicit key locator '
         '(each signer signs a Data packet that is verified against the key bits stored in the keychain), close/reopen; '
+        'hardening: identity 3 is named UNDER identity 1 (/i1/i3); a certificate name already held by one key offered to '
+        'another key; new_key / del_key through the Identity view; get_signer with every combination of identity / key / '
+        'cert (+ key_locator), Identity / Key objects as well as names, each drawn independently (deleted, absent, foreign '
+        'items) and judged by the documented priority cert > key > identity; directed openings (default deleted then a new '
+        'item added at each level, set_default through another owner, refused operations then reopen, nested identity '
+        'deleted); 8% of histories reopen after every operation; 4% (thorough 10%) have 26..40 (..70) operations; the '
+        'oracle judges "deleted" by what was asked, so an item or a default that disappears without a delete is reported; '
         'thorough tier: additionally one storage failure injected at a chosen database-write/commit/TPM call of one '
         'operation which is then repeated, compared with the same history run without the failure. Non-trivial = at '
         'least two keys exist at some point and at least one delete or set-default or signer request succeeded')
@@ -243,7 +250,10 @@ def _gen_op(rng, m, tier):
             t = 'x'
         elif q < 0.08 and tier == 'thorough':
             t = 'r'
-        return _op('nk', goodid(), t)
+        o = _op('nk', goodid(), t)
+        if rng.random() < 0.2:
+            o['v'] = 1                               # through Identity.new_key
+        return o
     if r < 0.40:
         k = key()
         q = rng.random()
@@ -253,6 +263,10 @@ def _gen_op(rng, m, tier):
             ce = key() + [rng.randint(1, 3)]        # named after another key
         else:
             ce = cert()                              # likely a duplicate
+            others = sorted(x for x in m.keys if x != m.certs.get(tuple(ce)))
+            if others and rng.random() < 0.6:        # ... offered to ANOTHER existing key than the one that holds it
+                x = rng.choice(others)
+                k = [m.keys[x], x]
         return _op('ic', k, ce)
     if r < 0.45:
         return _op('sdi', goodid())
@@ -265,7 +279,10 @@ def _gen_op(rng, m, tier):
     if r < 0.62:
         return _op('di', goodid())
     if r < 0.69:
-        return _op('dk', key())
+        o = _op('dk', key())
+        if rng.random() < 0.25:
+            o['v'] = 1                               # through Identity.del_key
+        return o
     if r < 0.75:
         return _op('dc', cert())
     if r < 0.77:
@@ -282,8 +299,64 @@ def _gen_op(rng, m, tier):
         else:
             sel = ['c', cert()]
         loc = rng.randint(1, 2) if rng.random() < 0.35 else None
+        if rng.random() < 0.35:
+            # documented combinations (docs/src/app.rst "Signature": cert > key > identity; Key / Identity objects allowed),
+            # each argument drawn independently, so they may name deleted, absent or foreign items
+            while True:
+                si = goodid() if rng.random() < 0.6 else None
+                sk = key() if rng.random() < 0.6 else None
+                sc = cert() if rng.random() < 0.4 else None
+                if (si, sk, sc) != (None, None, None):
+                    break
+            fl = ('i' if si is not None and rng.random() < 0.5 else '') + ('k' if sk is not None and rng.random() < 0.5 else '')
+            sel = ['x', si, sk, sc, fl]
         return _op('gs', sel, loc)
     return _op('ro')
+
+
+def _scenario(rng, m):
+    """directed openings (names predicted with the mirror); the random tail follows"""
+    i = rng.randint(1, NIDS)
+    j = rng.choice([x for x in range(1, NIDS + 1) if x != i])
+    ops = []
+
+    def add(*os_):
+        for o in os_:
+            ops.append(o)
+            m.apply(o)
+    if i not in m.ids:
+        add(_op('ti', i))
+    if j not in m.ids:
+        add(_op('ti', j))
+    ki = [i, min(k for k, o in m.keys.items() if o == i)] if any(o == i for o in m.keys.values()) else None
+    kj = [j, min(k for k, o in m.keys.items() if o == j)] if any(o == j for o in m.keys.values()) else None
+    if ki is None or kj is None:
+        return ops
+    which = rng.randrange(6)
+    if which == 0:      # a certificate name that already exists under another key is imported (the holder keeps two)
+        add(_op('ic', ki, ki + [1]), _op('ic', kj, ki + [rng.choice([0, 1])]), _op('gs', ['k', ki], None), _op('ro'))
+    elif which == 1:    # the default is deleted, then a new item is added (certificate / key / identity level)
+        lvl = rng.randrange(3)
+        if lvl == 0:
+            add(_op('ic', ki, ki + [1]), _op('dc', ki + [0]), _op('ic', ki, ki + [2]), _op('gs', ['k', ki], None))
+        elif lvl == 1:
+            add(_op('nk', i, 'e'), _op('dk', ki), _op('nk', i, 'e'), _op('gs', ['i', i], None))
+        else:
+            add(_op('sdi', i), _op('di', i), _op('ti', i), _op('gs', ['d'], None))
+    elif which == 2:    # set_default through another owner
+        add(_op('nk', j, 'e'))
+        add(_op('sdk', i, [j, m.next - 1]), _op('ic', kj, kj + [1]), _op('sdc', ki, kj + [1]),
+            _op('gs', ['i', i], None), _op('gs', ['i', j], None))
+    elif which == 3:    # signer requests naming deleted items, in every argument position
+        add(_op('gs', ['k', ki], 1), _op('dk', ki), _op('gs', ['x', i, ki, None, ''], None),
+            _op('gs', ['x', None, ki, ki + [0], ''], 1), _op('gs', ['x', j, None, ki + [0], 'i'], None),
+            _op('gs', ['c', ki + [0]], 1), _op('gs', ['x', j, ki, None, 'i'], None))
+    elif which == 4:    # refused operations (duplicate identity, duplicate certificate, unknown key) then reopen
+        add(_op('ni', i), _op('ic', ki, ki + [0]), _op('ic', [i, 700], [i, 700, 1]), _op('sdk', i, kj), _op('ro'),
+            _op('gs', ['i', i], None))
+    else:               # the identity nested under another one is deleted / its parent is deleted
+        add(_op('ti', 3), _op('ti', 1), _op('di', rng.choice([1, 3])), _op('gs', ['i', 1], None), _op('gs', ['i', 3], None))
+    return ops
 
 
 NFAULT = {'ni': 4, 'ti': 12, 'nk': 7, 'ic': 2, 'sdi': 2, 'sdk': 2, 'sdc': 2, 'di': 8, 'dk': 4, 'dc': 2, 'gs': 1}
@@ -300,6 +373,15 @@ def cases(rng, tier):
             ops.append(o)
             m.apply(o)
         ln = rng.randint(6, 25)
+        q = rng.random()
+        if q < (0.04 if tier == 'quick' else 0.10):
+            ln = rng.randint(26, 40 if tier == 'quick' else 70)      # long histories
+        if rng.random() < 0.25:
+            for o in _scenario(rng, m):
+                ops.append(o)
+                m.apply(o)
+            ln = max(ln, len(ops) + 3)
+        reopen_each = rng.random() < 0.08                            # close/reopen after every operation
         fault_at = None
         if tier == 'thorough' and j % 3 == 0:
             fault_at = rng.randint(len(ops), ln - 1) if ln > len(ops) else None
@@ -314,6 +396,8 @@ def cases(rng, tier):
                 continue
             ops.append(o)
             m.apply(o)
+        if reopen_each:
+            ops = [x for o in ops for x in ((o, _op('ro')) if o.get('f') is None and o['c'] != 'ro' else (o,))][:60]
         yield {'ops': ops}
     # (the scenarios of finding F12 are fixed cases in corpus/C15/)
     if tier == 'thorough':
@@ -354,6 +438,20 @@ def shrink(case):
 # =============================================================================== implementation
 def _lab_key(k):
     return f'{k[0]}.{k[1]}'
+
+
+def _eff_sel(sel):
+    """the selection a combined request amounts to, by the DOCUMENTED priority cert > key > identity > default"""
+    if sel[0] != 'x':
+        return sel
+    _, si, sk, sc, _fl = sel
+    if sc is not None:
+        return ['c', sc]
+    if sk is not None:
+        return ['k', sk]
+    if si is not None:
+        return ['i', si]
+    return ['d']
 
 
 def _lab_cert(c):
@@ -438,7 +536,8 @@ class _Rig:
 
     # ---- names
     def idname(self, i):
-        return self.Name.from_str(f'/i{i}')
+        # identity 3 lives UNDER identity 1: names that are prefixes of each other
+        return self.Name.from_str('/i1/i3' if i == 3 else f'/i{i}')
 
     def keyname(self, k):
         idn, kid = k
@@ -483,8 +582,7 @@ class _Rig:
                     kid = self.kid_of_file.get(fn)
                     if kid is None:
                         continue
-                    m = re.fullmatch(r'/i(\d+)', self.Name.to_str(kname[:-2]))
-                    idn = int(m.group(1)) if m else 0
+                    idn = max(self.ilabel(kname[:-2]), 0)
                     self.key_name[kid] = (idn, kname)
                     self.key_label[kb] = _lab_key([idn, kid])
                     try:
@@ -509,8 +607,10 @@ class _Rig:
         return self.cert_label.get(bytes(self.Name.to_bytes(name)), 'unk')
 
     def ilabel(self, name):
-        m = re.fullmatch(r'/i(\d+)', self.Name.to_str(name))
-        return int(m.group(1)) if m else -1
+        m = re.fullmatch(r'(?:/i1)?/i(\d+)', self.Name.to_str(name))
+        if not m or (m.group(0).startswith('/i1/') != (m.group(1) == '3')):
+            return -1
+        return int(m.group(1))
 
     # ---- one operation
     def do(self, op):
@@ -522,7 +622,10 @@ class _Rig:
             kc.touch_identity(self.idname(a[0]))
         elif c == 'nk':
             kt = {'e': 'ec', 'r': 'rsa', 'x': 'dsa'}[a[1]]
-            kc.new_key(self.idname(a[0]), key_type=kt)
+            if op.get('v'):
+                kc[self.idname(a[0])].new_key(kt)
+            else:
+                kc.new_key(self.idname(a[0]), key_type=kt)
         elif c == 'ic':
             cn = self.certname(a[1])
             data = self.cert_data.get(tuple(a[1]), b'\x06\x03cert' + _lab_cert(a[1]).encode())
@@ -536,7 +639,10 @@ class _Rig:
         elif c == 'di':
             kc.del_identity(self.idname(a[0]))
         elif c == 'dk':
-            kc.del_key(self.keyname(a[0]))
+            if op.get('v'):
+                kc[self.idname(a[0][0])].del_key(self.keyname(a[0]))
+            else:
+                kc.del_key(self.keyname(a[0]))
         elif c == 'dc':
             kc.del_cert(self.certname(a[0]))
         elif c == 'dcv':
@@ -550,6 +656,34 @@ class _Rig:
                 args['key'] = self.keyname(sel[1])
             elif sel[0] == 'c':
                 args['cert'] = self.certname(sel[1])
+            elif sel[0] == 'x':
+                _, si, sk, sc, fl = sel
+                top = _eff_sel(sel)[0]
+                if si is not None:
+                    args['identity'] = self.idname(si)
+                    if 'i' in fl.lower():
+                        # An EMPTY Identity / Key object is falsy (a Mapping of length 0) and get_signer then silently
+                        # signs with the default identity (genuine defect, reported; kept out of the generated stream:
+                        # lower-case flags fall back to the name form for an empty object, upper-case ones do not)
+                        try:
+                            o = kc[self.idname(si)]
+                            if len(o) > 0 or 'I' in fl:
+                                args['identity'] = o
+                        except KeyError:
+                            if top == 'i':
+                                raise
+                if sk is not None:
+                    args['key'] = self.keyname(sk)
+                    if 'k' in fl.lower():
+                        try:
+                            o = kc[self.idname(sk[0])][self.keyname(sk)]
+                            if len(o) > 0 or 'K' in fl:
+                                args['key'] = o
+                        except KeyError:
+                            if top == 'k':
+                                raise
+                if sc is not None:
+                    args['cert'] = self.certname(sc)
             if loc is not None:
                 args['key_locator'] = self.locname(loc)
             signer = kc.get_signer(args)
@@ -822,7 +956,7 @@ def _tok_op(o):
     elif c == 'dc':
         t = f'dc:{_lab_cert(a[0])}'
     elif c == 'gs':
-        sel, loc = a
+        sel, loc = _eff_sel(a[0]), a[1]
         s = 'd' if sel[0] == 'd' else ('i%d' % sel[1] if sel[0] == 'i' else ('k' + _tok_key(sel[1]) if sel[0] == 'k'
                                                                                else 'c' + _lab_cert(sel[1])))
         t = f"gs:{s}:{'~' if loc is None else loc}"
@@ -894,7 +1028,7 @@ def _views_ok(snap, homes):
             if len(set(kv['iter'])) != len(kv['iter']):
                 return 'key iterates a certificate twice'
             for cl in kv['iter']:
-                if homes.get(cl) != kl:
+                if kl not in homes.get(cl, ()):
                     return f'key {kl} lists certificate {cl} that was not stored under it'
             for x, e in kv['probe'].items():
                 inn = x in kv['iter']
@@ -931,8 +1065,25 @@ def _shape(snap):
     return (ids, len(snap['files']))
 
 
+def _deleted_by(op, s, d):
+    """does this operation ask for the deletion of d (the default of scope s), or of the owner of the scope?"""
+    c, a = op['c'], op['a']
+    keyscope = len(s) > 1 and s[0] == 'K'
+    if c == 'dc':
+        return keyscope and d == _lab_cert(a[0])
+    if c == 'dcv':
+        return keyscope and d == _lab_cert(a[1])
+    if c == 'dk':
+        return (s[0] == 'I' and d == _lab_key(a[0])) or s == 'K' + _lab_key(a[0])
+    if c == 'di':
+        return (s == 'K' and d == a[0]) or s == 'I' + str(a[0]) or (keyscope and s[1:].split('.')[0] == str(a[0]))
+    return False
+
+
 def _oracle_trace(trace, check_reopen=True):
-    homes = {}           # cert label -> key label it was stored under
+    homes = {}           # cert label -> key labels it was stored under by a successful operation (and not deleted since)
+    known_ids = set()    # identities / keys seen in the store and not deleted since
+    known_keys = {}      # key label -> identity
     deleted = set()      # keys deleted by a successful delete
     excused = {}         # scope -> its default was deleted and there has been none since
     prev = None
@@ -948,11 +1099,14 @@ def _oracle_trace(trace, check_reopen=True):
                 if kv:
                     for cl in kv['iter']:
                         if cl.endswith('.0') and cl.rsplit('.', 1)[0] == kl and cl not in homes:
-                            homes[cl] = kl
-        if c == 'ic' and rec['exc'] is None:
-            homes[_lab_cert(a[1])] = _lab_key(a[0])
+                            homes[cl] = [kl]
+        if c == 'ic' and rec['exc'] is None and _lab_key(a[0]) not in homes.setdefault(_lab_cert(a[1]), []):
+            # (a name already stored under ANOTHER key: whether that may be accepted is not judged; the other key keeps it)
+            homes[_lab_cert(a[1])].append(_lab_key(a[0]))
         if c == 'ic' and rec['exc'] == 'InjectedFault' and _lab_cert(a[1]) not in homes:
-            homes[_lab_cert(a[1])] = _lab_key(a[0])     # may have been written before the failing commit
+            homes[_lab_cert(a[1])] = [_lab_key(a[0])]   # may have been written before the failing commit
+        for cl in [cl for cl, ks in homes.items() if not ks]:
+            del homes[cl]
         why = _views_ok(snap, homes)
         if why:
             return f'op {n}: {why}'
@@ -967,7 +1121,9 @@ def _oracle_trace(trace, check_reopen=True):
             if members and not has:
                 pm = psc.get(s)
                 if pm and pm[3] is not None:
-                    if pm[3] in members:
+                    # "deleted" is judged by what was ASKED, not by what disappeared (unless a storage failure was
+                    # injected earlier: then an uncommitted write may legitimately be rolled back by a reopen)
+                    if pm[3] in members or not (faulted or _deleted_by(op, s, pm[3])):
                         return f'op {n}: scope ({s[0]}) lost its default although the default was not deleted'
                     excused[s] = True
                 elif not excused.get(s):
@@ -989,8 +1145,14 @@ def _oracle_trace(trace, check_reopen=True):
             elif c == 'dk':
                 gone = [_lab_key(a[0])]
             deleted.update(gone)
-            for cl in [cl for cl, k in homes.items() if k in gone]:
-                del homes[cl]
+            for cl in list(homes):
+                homes[cl] = [k for k in homes[cl] if k not in gone]
+                if not homes[cl]:
+                    del homes[cl]
+            for k in gone:
+                known_keys.pop(k, None)
+            if c == 'di':
+                known_ids.discard(a[0])
             if c == 'dc':
                 homes.pop(_lab_cert(a[0]), None)
                 for i, iv in snap['ids'].items():
@@ -1002,21 +1164,40 @@ def _oracle_trace(trace, check_reopen=True):
                 if kl in deleted:
                     return f'op {n}: deleted key is still listed'
                 for cl in (kv['iter'] if kv else []):
-                    if homes.get(cl) in deleted:
+                    if any(k in deleted for k in homes.get(cl, ())):
                         return f'op {n}: certificate of a deleted key is still listed'
         for f in snap['files']:
             if f in deleted:
                 return f'op {n}: private key of a deleted key is still in the private-key directory'
+        # nothing disappears unless its deletion (or that of its owner) was asked for: the views are mappings
+        if not faulted:
+            for i in sorted(known_ids):
+                if i not in snap['iter']:
+                    return f'op {n}: an identity vanished although it was never deleted'
+            for kl, i in sorted(known_keys.items()):
+                iv = snap['ids'].get(str(i))
+                if not iv or kl not in iv['iter']:
+                    return f'op {n}: a key vanished from its identity although it was never deleted'
+            for cl, ks in sorted(homes.items()):
+                for k in ks:
+                    kv = (snap['ids'].get(k.split('.')[0]) or {'keys': {}})['keys'].get(k)
+                    if not kv or cl not in kv['iter']:
+                        return f'op {n}: a certificate vanished from its key although it was never deleted'
+        known_ids.update(i for i in snap['iter'] if i >= 0)
+        for i, iv in snap['ids'].items():
+            for kl in iv['iter']:
+                if kl != 'unk' and kl.split('.')[0] == i:
+                    known_keys[kl] = int(i)
         # signer
         if c == 'gs' and rec['exc'] is None and rec['signer'] is not None and prev is not None:
-            sel, loc = a
+            sel, loc = _eff_sel(a[0]), a[1]
             who, kl_seen = rec['signer']
             want_key, want_cert = None, None
             judge = True
             if sel[0] == 'c':
                 want_cert = _lab_cert(sel[1])
                 want_key = _lab_key(sel[1][:2])
-                if homes.get(want_cert, want_key) != want_key:
+                if want_key not in homes.get(want_cert, [want_key]):
                     judge = False                      # certificate stored under a key it is not named after
             else:
                 if sel[0] == 'k':
@@ -1028,15 +1209,15 @@ def _oracle_trace(trace, check_reopen=True):
                     want_key = iv['default'] if iv else None
                 kv = iv['keys'].get(want_key) if (iv and want_key) else None
                 want_cert = kv['default'] if kv else None
-                if want_key is None or want_cert is None:
+                if want_key is None:
                     judge = False
             if judge:
                 if want_key in deleted:
                     return f'op {n}: get_signer returned a signer for a deleted key'
                 if who != want_key:
                     return f'op {n}: signer signs with the private key of another key than the selected one'
-                want_loc = f'l{loc}' if loc is not None else 'c' + want_cert
-                if kl_seen != want_loc:
+                want_loc = f'l{loc}' if loc is not None else ('c' + want_cert if want_cert is not None else None)
+                if want_loc is not None and kl_seen != want_loc:
                     return f'op {n}: signer names a key locator other than the selected certificate / explicit locator'
             if who in deleted:
                 return f'op {n}: get_signer returned a signer for a deleted key'
@@ -1087,6 +1268,15 @@ def tags(case, impl):
             t.append('fault-reached' if r['exc'] == 'InjectedFault' else 'fault-not-reached')
         if o['c'] == 'nk' and o['a'][1] == 'r' and not r['exc']:
             t.append('rsa-key')
+        if o.get('v'):
+            t.append('via-view:' + o['c'])
+        if o['c'] == 'gs' and o['a'][0][0] == 'x':
+            n_args = sum(x is not None for x in o['a'][0][1:4])
+            t.append('gs-args:%d%s%s' % (n_args, '+object' if o['a'][0][4] else '', '' if r['exc'] else ':ok'))
+        if o['c'] == 'ic' and r['exc'] == 'IntegrityError' and o['a'][0] != o['a'][1][:2]:
+            t.append('ic-refused-under-other-key')
+        if o['c'] in ('ti', 'ni', 'di') and o['a'][0] == 3:
+            t.append('nested-identity:' + o['c'])
     t.append('len:%d' % (len(case['ops']) // 5 * 5))
     return t
 
